@@ -134,7 +134,19 @@ def theorem_names(module):
     ns = []
     if not os.path.exists(path):
         return res
+    in_block = 0
     for i, line in enumerate(open(path), 1):
+        # skip block comments (a full statement kept as a comment is not a theorem)
+        if in_block:
+            if "-/" in line:
+                in_block = 0
+            continue
+        st = line.lstrip()
+        if st.startswith("/-") and "-/" not in st[2:]:
+            in_block = 1
+            continue
+        if st.startswith("--"):
+            continue
         m = re.match(r"\s*namespace\s+(\S+)", line)
         if m:
             ns.append(m.group(1))
